@@ -185,21 +185,34 @@ func ruleR02_4(c *Ctx) {
 			c.obI("R02.4", r, "admit-no-error-returned", isNilConst(r.Results[2]), "an admitting return carries no error", "error result "+describe(r.Results[2]))
 			continue
 		}
-		if bb, ok := constBool(r.Results[0]); ok && bb {
-			// anonymous admission
-			gA := guardedBy(r, nil, factBool(func(v ssa.Value) bool {
-				ok, _ := allOrigins(v, func(o Origin) bool { _, isB := constBool(o.V); return isB })
-				return ok
-			}, true))
-			gE := guardedBy(r, nil, factNil(isLastErr, true))
-			c.obI("R02.4", r, "anonymous-needs-anon-alternative", gA, "a principal-less admission happens only when an anonymous alternative was seen", "path without the allowsAnon test")
-			c.obI("R02.4", r, "anonymous-needs-no-rejection", gE, "the anonymous alternative admits only when no scheme rejected presented credentials (lastError == nil)", "path reaches the anonymous admission without lastError == nil")
+		// principal-less returns: an anonymous admission, a refusal with the recorded error, or "nothing applied"
+		isAnonFlag := func(v ssa.Value) bool {
+			ok, _ := allOrigins(v, func(o Origin) bool { _, isB := constBool(o.V); return isB })
+			return ok
+		}
+		gAnon := guardedBy(r, nil, factBool(isAnonFlag, true))
+		gNoErr := guardedBy(r, nil, factNil(isLastErr, true))
+		gErr := guardedBy(r, nil, factNil(isLastErr, false))
+		errRes := r.Results[2]
+		okE, bad := allOrigins(errRes, oNil(), oIsValue(err))
+		c.obI("R02.4", r, "refusal-error-origin", okE, "the error of a principal-less return is nil or a rejecting alternative's error", "origin "+describeOrigin(bad))
+		r0 := r.Results[0]
+		if bb, isConst := constBool(r0); isConst && bb {
+			if gErr {
+				// (true, nil, lastError) under lastError != nil: the rejecting scheme's error is reported
+				c.obI("R02.4", r, "rejection-reported", !isNilConst(errRes), "a recorded rejection is reported with its error", "applies == true under a recorded error but the error is not returned")
+				continue
+			}
+			// otherwise this is the anonymous admission
+			c.obI("R02.4", r, "anonymous-needs-anon-alternative", gAnon, "a principal-less admission happens only when an anonymous alternative was seen", "path without the allowsAnon test")
+			c.obI("R02.4", r, "anonymous-needs-no-rejection", gNoErr, "the anonymous alternative admits only when no scheme rejected presented credentials (lastError == nil)", "path reaches the anonymous admission without lastError == nil")
 			continue
 		}
-		// refusal
-		okE, bad := allOrigins(r.Results[2], oNil(), oIsValue(err))
-		c.obI("R02.4", r, "refusal-error-origin", okE, "the error of a refusal is a rejecting alternative's error", "origin "+describeOrigin(bad))
-		r0 := r.Results[0]
+		if bb, isConst := constBool(r0); isConst && !bb {
+			// "no alternative applied": must not swallow a recorded rejection
+			c.obI("R02.4", r, "not-applicable-only-without-rejection", gNoErr, "the OR composition reports 'not applicable' only when no rejection was recorded", "a recorded rejection can be dropped")
+			continue
+		}
 		okApplies := false
 		if bo, ok := r0.(*ssa.BinOp); ok {
 			okApplies = factNil(isLastErr, false)(bo, true)
@@ -266,7 +279,27 @@ func ruleR02_5(c *Ctx) {
 				return true
 			}
 		}
-		return false
+		// a variable holding the authorizer's verdict (possibly mapped to a 403 by a helper): nil, the authorizer's
+		// error, or the 403 built from it — and at least the authorizer's error
+		has := false
+		for _, o := range originsOf(v) {
+			switch {
+			case isNilConst(o.V):
+			case isCallTo(o.V, "github.com/go-openapi/errors.New"):
+			default:
+				isZ := false
+				for _, z := range authzCalls {
+					if o.V == z.Value() {
+						isZ = true
+					}
+				}
+				if !isZ {
+					return false
+				}
+				has = true
+			}
+		}
+		return has
 	}
 	for _, z := range authzCalls {
 		_, args := callArgs(z.Common())
@@ -304,6 +337,7 @@ func ruleR02_5(c *Ctx) {
 		}
 		if !isNilConst(errRes) {
 			okE, bad := allOrigins(errRes,
+				oNil(), // (a helper's nil result on another path; this return itself is guarded by err != nil)
 				oIsValue(err),
 				oCall(-1, "github.com/go-openapi/errors.Unauthenticated"),
 				func(o Origin) bool { return authzErr(o.V) },
@@ -425,17 +459,17 @@ func ruleR02_2(c *Ctx) {
 	}
 	// binding code is not reachable from the wrapper other than through next
 	forbidden := map[string]bool{
-		"rt/middleware.validateRequest":                   true,
-		"(*rt/middleware.UntypedRequestBinder).Bind":      true,
-		"(*rt/middleware.untypedParamBinder).Bind":        true,
-		"(*rt/middleware.Context).BindAndValidate":        true,
-		"(*rt/middleware.Context).BindValidRequest":       true,
-		"(rt.OperationHandler).Handle":                    true,
-		"(rt.Consumer).Consume":                           true,
-		"(rt/middleware.RequestBinder).BindRequest":       true,
-		"(rt.OperationHandlerFunc).Handle":                true,
-		"(*net/http.Request).ParseForm":                   true,
-		"(*net/http.Request).ParseMultipartForm":          true,
+		"rt/middleware.validateRequest":              true,
+		"(*rt/middleware.UntypedRequestBinder).Bind": true,
+		"(*rt/middleware.untypedParamBinder).Bind":   true,
+		"(*rt/middleware.Context).BindAndValidate":   true,
+		"(*rt/middleware.Context).BindValidRequest":  true,
+		"(rt.OperationHandler).Handle":               true,
+		"(rt.Consumer).Consume":                      true,
+		"(rt/middleware.RequestBinder).BindRequest":  true,
+		"(rt.OperationHandlerFunc).Handle":           true,
+		"(*net/http.Request).ParseForm":              true,
+		"(*net/http.Request).ParseMultipartForm":     true,
 	}
 	reach := staticReach(p, f)
 	var hit []string
